@@ -305,6 +305,49 @@ static void h_op(void)
     st = esl_msa_Sample(rng, abc, maxn, maxa, &A);
     esl_randomness_Destroy(rng);
     out_status(st);
+  } else if (!strcmp(op, "expand")) {
+    /* esl_msa_Expand on the current (not growable: alen >= 0) alignment: eslEINVAL, nothing changes */
+    if (!A) { h_out("bad-op"); return; }
+    out_status(esl_msa_Expand(A));
+  } else if (!strcmp(op, "grow")) {
+    /* a growable alignment as the parsers hold it (esl_msa_Create(n, -1)), some per-sequence annotation set through the
+     * API (optional ss/sa/pp arrays allocated the way the Stockholm parser does), then k calls of esl_msa_Expand;
+     * prints every slot of every per-sequence array */
+    int n = (int) h_argi("n", 0), k = (int) h_argi("k", 0), named = (int) h_argi("named", 0), opt = (int) h_argi("opt", 0);
+    int acc = (int) h_argi("acc", -1), desc = (int) h_argi("desc", -1), ngs = (int) h_argi("gs", 0), ngr = (int) h_argi("gr", 0);
+    ESL_MSA *g; int i, t, st = eslOK; char tag[16];
+    if (n <= 0 || n > 64 || k < 0 || k > 5 || acc >= n || desc >= n) { h_out("bad-op"); return; }
+    if (named > n) named = n; if (ngs > 8) ngs = 8; if (ngr > 8) ngr = 8;
+    g = esl_msa_Create(n, -1);
+    for (i = 0; i < named; i++) { snprintf(tag, sizeof tag, "q%d", i); esl_msa_SetSeqName(g, i, tag, -1); }
+    g->nseq = named;
+    if (opt & 1) { g->ss = malloc(sizeof(char *) * n); g->sslen = malloc(sizeof(int64_t) * n); for (i = 0; i < n; i++) { g->ss[i] = NULL; g->sslen[i] = 0; } }
+    if (opt & 2) { g->sa = malloc(sizeof(char *) * n); g->salen = malloc(sizeof(int64_t) * n); for (i = 0; i < n; i++) { g->sa[i] = NULL; g->salen[i] = 0; } }
+    if (opt & 4) { g->pp = malloc(sizeof(char *) * n); g->pplen = malloc(sizeof(int64_t) * n); for (i = 0; i < n; i++) { g->pp[i] = NULL; g->pplen[i] = 0; } }
+    if (acc  >= 0) esl_msa_SetSeqAccession(g, acc, "AC", -1);
+    if (desc >= 0) esl_msa_SetSeqDescription(g, desc, "d", -1);
+    for (t = 0; t < ngs; t++) { snprintf(tag, sizeof tag, "T%d", t); esl_msa_AddGS(g, tag, -1, t % n, "v", -1); }
+    for (t = 0; t < ngr; t++) { snprintf(tag, sizeof tag, "R%d", t); esl_msa_AppendGR(g, tag, t % n, "x"); }
+    for (i = 0; i < k && st == eslOK; i++) st = esl_msa_Expand(g);
+    if (st != eslOK) { out_status(st); }
+    else {
+      o_reset(); o_fmt("ok sqalloc=%d", g->sqalloc);
+      for (i = 0; i < g->sqalloc; i++) {
+        o_add(" sl="); o_str(g->sqname[i]); o_fmt(",%s,%" PRId64 ",", h_dbits(g->wgt[i]), g->sqlen[i]);
+        o_str(g->aseq ? g->aseq[i] : NULL);
+        o_add(","); if (!g->ss) o_add("."); else { o_str(g->ss[i]); o_fmt(":%" PRId64, g->sslen[i]); }
+        o_add(","); if (!g->sa) o_add("."); else { o_str(g->sa[i]); o_fmt(":%" PRId64, g->salen[i]); }
+        o_add(","); if (!g->pp) o_add("."); else { o_str(g->pp[i]); o_fmt(":%" PRId64, g->pplen[i]); }
+        o_add(","); if (!g->sqacc)  o_add("."); else o_str(g->sqacc[i]);
+        o_add(","); if (!g->sqdesc) o_add("."); else o_str(g->sqdesc[i]);
+      }
+      for (t = 0; t < g->ngs; t++) { o_add(" gs="); o_str(g->gs_tag[t]); for (i = 0; i < g->sqalloc; i++) { o_add(","); o_str(g->gs[t][i]); } }
+      for (t = 0; t < g->ngr; t++) { o_add(" gr="); o_str(g->gr_tag[t]); for (i = 0; i < g->sqalloc; i++) { o_add(","); o_str(g->gr[t][i]); } }
+      h_out("%s", ob);
+    }
+    /* esl_msa_Destroy frees per-sequence strings up to nseq only: make every allocated slot visible to it */
+    g->nseq = g->sqalloc;
+    esl_msa_Destroy(g);
   } else if (!strcmp(op, "cut")) {
     int k = (int) h_argi("i", 0); const char *v = h_arg("v"); uint32_t u = v ? (uint32_t) strtoul(v, NULL, 16) : 0;
     if (!A || k < 0 || k >= eslMSA_NCUTS) { h_out("bad-op"); return; }
